@@ -22,7 +22,7 @@ import propkit
 import vlib
 
 MANIFEST = {
-  "text": "proof: for the transcribed compaction kernels: dof_cdof/cdof_dof are mutually inverse, order preserving on the dofs of awake trees and -1 elsewhere (no overflow; prefix form under overflow); NVMAX bit iff active dofs > nvmax and ncdof = min; all trees awake -> identity maps; the gathered inertia is the identity, the gathered Jacobian and vectors are zero on the padding [ncdof, nvmax_pad); hence (over R, any row cost) the padded cost = active cost + 1/2|padding|^2 and its minimiser is (argmin, 0); scatter writes exactly 0 on frozen dofs; termination tests with nv->nvmax_pad, tol->tol*nv/nvmax_pad are the full solve's (over the regenerated _rescale). Proved refuted: the linesearch gradient tolerance is NOT preserved (scaled by nv/nvmax_pad). Not proved: convergence of the Newton iteration, float32 rounding, the active block of cM/cJ equals P M P^T / J P^T (tested exactly by the correspondence)",
+  "text": "proof: for the transcribed compaction kernels: dof_cdof/cdof_dof are mutually inverse, order preserving on the dofs of awake trees and -1 elsewhere (no overflow; prefix form under overflow); NVMAX bit iff active dofs > nvmax and ncdof = min; all trees awake -> identity maps; the gathered inertia is the identity, the gathered Jacobian and vectors are zero on the padding [ncdof, nvmax_pad); hence (over R, any row cost) the padded cost = active cost + 1/2|padding|^2 and its minimiser is (argmin, 0); scatter writes exactly 0 on frozen dofs; termination tests with nv->nvmax_pad, tol->tol*nv/nvmax_pad are the full solve's (over the regenerated _rescale). The linesearch gradient tolerance is preserved too (ls_tolerance is not rescaled; proved, with the pre-fix double scaling as a refuting regression witness); over a sparse full model a world with nefc = 0 has its compacted qfrc_constraint workspace overwritten with zeros by _solve_init_dof (flag m.is_sparse or _sparse_compact(ctx), checked on the source). Not proved: convergence of the Newton iteration, float32 rounding, the active block of cM/cJ equals P M P^T / J P^T (tested exactly by the correspondence)",
   "note": "trusted: Coq kernel; hand transcription Model/Compact.v (tied by exact per-run correspondence with the real kernels); translator for _rescale; real-number axioms of Coq's Reals",
   "technique": "Rocq proof over a hand-written executable model (C, exact integer correspondence with the launched kernels) + T for _rescale + differential oracle compact vs full solve",
   "engine": "coq",
@@ -225,6 +225,73 @@ def gather_cases(res, rng, nscenes):
       lines.append(f"tvz (scatter_vec 0 {nv} {zl(dc[w])} {zl(x2[w])})%Z {zl(q2n[w])}")
       lines.append(f"tvz (scatter_vec 0 {nv} {zl(dc[w])} {zl(x[w])})%Z {zl(q3n[w])}")
       meta += [{"kind": kk, "xml": xml, "tree_awake": awake[w].tolist()} for kk in ("gather_rhs", "scatter_dof_vecs.qacc", "scatter_dof_vecs.qfrc_constraint", "scatter_solution")]
+  return lines, meta
+
+
+def source_facts(res, sk):
+  """S: the two host-side facts the tolerance / nefc=0 theorems are about, read off the regenerated skeleton."""
+  def find(stmts, pred, out):
+    for st in stmts:
+      if pred(st):
+        out.append(st)
+      for k in ("then", "else", "body"):
+        if k in st:
+          find(st[k], pred, out)
+    return out
+
+  bad = []
+  prog = sk.prog
+  a = find(prog.get("solver._solve", {}).get("body", []), lambda st: st["k"] == "launch" and st["kernel"] == "solver._solve_init_dof", [])
+  ok1 = len(a) == 1 and len(a[0]["factory_args"]) == 2 and a[0]["factory_args"][1] == "m.is_sparse or _sparse_compact(ctx)"
+  res.obligation("S: _solve launches _solve_init_dof(warmstart, m.is_sparse or _sparse_compact(ctx))", ok1, str([x["factory_args"] for x in a]))
+  if not ok1:
+    bad.append("solver._solve:_solve_init_dof flag")
+  body = prog.get("solver.solve_compact", {}).get("body", [])
+  t = find(body, lambda st: st["k"] == "launch" and st["kernel"] == "solver._compact_tolerance", [])
+  r = find(body, lambda st: st["k"] == "call" and st["f"] == "dataclasses.replace" and st["args"] == ["m.opt"], [])
+  ok2 = (
+    len(t) == 1 and t[0]["ins"] == ["m.opt.tolerance", "float(m.nv) / float(nvp)"] and len(t[0]["outs"]) == 1
+    and len(r) == 1 and r[0]["kwargs"].get("tolerance") == t[0]["outs"][0] and "ls_tolerance" not in r[0]["kwargs"]
+  )  # fmt: skip
+  res.obligation("S: solve_compact rescales the current m.opt.tolerance by float(m.nv)/float(nvp) and passes ls_tolerance through", ok2, f"launch {[(x['ins'], x['outs']) for x in t]}; replace(m.opt) kwargs {[x['kwargs'] for x in r]}")
+  if not ok2:
+    bad.append("solver.solve_compact:tolerance")
+  return bad
+
+
+def solver_entry_cases(res, rng, n):
+  """_solve_init_dof (both flags, nefc 0 / >0, junk in the qfrc_constraint buffer) and _compact_tolerance."""
+  import warp as wp
+
+  from mujoco_warp._src import solver as S
+
+  lines, meta = [], []
+  for k in range(n):
+    nv, nworld = int(rng.integers(1, 9)), 2
+    ws = rng.integers(-50, 51, (nworld, nv)).astype(np.float32)
+    sm = rng.integers(-50, 51, (nworld, nv)).astype(np.float32)
+    junk = rng.integers(1, 90, (nworld, nv)).astype(np.float32)
+    nefc = np.array([0, int(rng.integers(0, 3))], dtype=np.int32)
+    for warm in (True, False):
+      for sparse in (True, False):
+        qa = wp.array(np.full((nworld, nv), 77, dtype=np.float32), dtype=float)
+        qf = wp.array(junk.copy(), dtype=float)
+        wp.launch(S._solve_init_dof(warm, sparse), dim=(nworld, nv), inputs=[wp.array(nefc, dtype=int), wp.array(ws, dtype=float), wp.array(sm, dtype=float)], outputs=[qa, qf])
+        qan, qfn = qa.numpy(), qf.numpy()
+        for w in range(nworld):
+          b = lambda x: "true" if x else "false"
+          lines.append(f"tvz (let r := solve_init_dof 0 {b(warm)} {b(sparse)} {int(nefc[w])} {zl(ws[w])} {zl(sm[w])} {zl(junk[w])} in fst r ++ snd r)%Z {zl(np.concatenate([qan[w], qfn[w]]))}")
+          meta.append({"kind": "solve_init_dof", "warmstart": warm, "sparse": sparse, "nefc": int(nefc[w])})
+          res.nontrivial(("init_dof", warm, sparse, int(nefc[w]) == 0))
+  for k in range(n):
+    nv, nvp = int(rng.integers(1, 61)), int(rng.choice([16, 32, 48, 64]))
+    tol = (10.0 ** rng.uniform(-6, -1, 3)).astype(np.float32)
+    out = wp.zeros(3, dtype=float)
+    wp.launch(S._compact_tolerance, dim=3, inputs=[wp.array(tol, dtype=float), float(nv) / float(nvp)], outputs=[out])
+    o = out.numpy()
+    for i in range(3):
+      lines.append(f"tv3 {vlib.fhex(1e-6)} (fun Sc => [@compact_tolerance float Sc {vlib.fhex(tol[i])} ({nv})%Z ({nvp})%Z]) {vlib.flist([o[i]])}")
+      meta.append({"kind": "compact_tolerance", "nv": nv, "nvmax_pad": nvp, "tol": float(tol[i])})
   return lines, meta
 
 
@@ -474,7 +541,8 @@ def run(res):
 
   quick = res.tier == "quick"
   res.rule = "correspondence cases: one per (world, kernel) launch on synthetic tree tables / awake masks / capacities and on real models (exact integer comparison); distinct = (kernel, nv, ncdof / overflow / all-awake / none-awake classes); oracle: scenes x jacobian x cone x awake masks x capacities"
-  ok, trs, failing = propkit.prove(res, "Props/C38.v", gen_names=["solver_term"], required_funcs=["_rescale"])
+  ok, trs, failing = propkit.prove(res, "Props/C38.v", gen_names=["solver_term", "Skel_pipeline"], required_funcs=["_rescale"])
+  sbad = source_facts(res, trs["Skel_pipeline"]) if trs.get("Skel_pipeline") is not None else ["Skel_pipeline generator failed"]
   with vlib.Lock():
     okg, outg, failg = vlib.coq_make(["Gen/solver_term.vo", "Model/Compact.vo"])
   if not okg:
@@ -493,7 +561,8 @@ def run(res):
   l1, m1 = map_cases(res, rng, 60 if quick else 600)
   l2, m2 = gather_cases(res, rng, 6 if quick else 40)
   l3, m3 = pad_cases()
-  lines, meta = l1 + l2 + l3, m1 + m2 + m3
+  l4, m4 = solver_entry_cases(res, rng, 6 if quick else 40)
+  lines, meta = l1 + l2 + l3 + l4, m1 + m2 + m3 + m4
   vlib.log(f"[C38] real kernels launched ({len(lines)} cases), {time.time() - res.t0:.0f}s")
   dis = []
   if okg:
@@ -546,7 +615,7 @@ def run(res):
     res.count()
     res.extra.setdefault("runtime_tolerance", []).append({"mjm_tolerance": tol_mjm, "model_tolerance_at_solve": tol_rt, "ctol": ctol, "niter_full": nb, "niter_compact": nc, "rel_qacc_diff": rel})
     if max(rel) > 1e-3:
-      fails.append(("C38:compact-vs-full:runtime-tolerance-ignored", f"m.opt.tolerance set to {tol_rt} after make_data (mjm.opt.tolerance was {tol_mjm}): full solve niter {nb}, compact solve niter {nc} (d.ctol = {ctol:.3g} frozen at make_data), qacc differs by {max(rel):.2e} relative", {"kind": "runtime_tol", "model": "batchkit.RICH_XML", "mjm_tolerance": tol_mjm, "model_tolerance_at_solve": tol_rt, "states_seed": vlib.seed(), "niter_full": nb, "niter_compact": nc, "rel_qacc_diff": rel}))
+      fails.append(("C38:compact-vs-full:runtime-tolerance-ignored", f"m.opt.tolerance set to {tol_rt} after make_data (mjm.opt.tolerance was {tol_mjm}): full solve niter {nb}, compact solve niter {nc} (d.ctol = {ctol:.3g} is the value frozen at make_data), qacc differs by {max(rel):.2e} relative", {"kind": "runtime_tol", "model": "batchkit.RICH_XML", "mjm_tolerance": tol_mjm, "model_tolerance_at_solve": tol_rt, "states_seed": vlib.seed(), "niter_full": nb, "niter_compact": nc, "rel_qacc_diff": rel}))
   vlib.log(f"[C38] oracle done, {time.time() - res.t0:.0f}s")
   seen = set()
   for key, what, data in fails:
@@ -558,13 +627,15 @@ def run(res):
     res.violation("C38:model-mismatch", "Model/Compact.v disagrees with the real compaction kernels (model no longer tied to the code)", dis[:3], found_input=False)
   if tbad and not fails:
     res.violation("C38:translator-mismatch", "translated _rescale disagrees with the compiled function", tbad[:3], found_input=False)
-  if not ok and not fails:
+  if sbad and not fails:
+    propkit.broken_proof_violation(res, "C38 host-side facts of the repaired compact solve (tolerance rescaling / nefc=0 flag)", "S:" + ",".join(sbad), sbad)
+  elif not ok and not fails:
     propkit.broken_proof_violation(res, "C38 compaction theorems", failing)
   res.assumptions += [
     "well-formed tree tables (increasing, disjoint dof ranges inside [0,nv)); M_colind / J_colind entries are dof ids",
     "the Newton iteration on the padded problem is not modelled: the theorems locate the minimiser, the oracle compares the real solves (rtol 1e-3 of 1+|field|, converged runs only)",
-    "ctol / cls_tol are computed once from mjm.opt at make_data / put_data time: later changes of m.opt.tolerance (or per-world tolerances) are not seen by the compact solve",
-    "linesearch gradient tolerance of the compact solve is (nv/nvmax_pad) x the full solve's (C38_compact_ls_gtol_scaled); no observable deviation beyond rtol was found by the oracle",
+    "regression cases kept under their keys: C38:compact-vs-full:runtime-tolerance-ignored (m.opt.tolerance changed after make_data) and C38:compact-nefc0-reads-unwritten-workspace (free-falling sphere, sparse, SLEEP, poisoned workspaces); both fixed in /repo",
+    "d.ctol / d.cls_tol are still allocated by io but no longer read by solve_compact (checked on the source: S obligation)",
     "the compact workspaces (wp.empty) are pre-filled with NaN by the oracle before every compact solve: a read of a never-written element shows up as a non-finite or wrong result",
     "under NVMAX overflow a tree can be split between active and frozen dofs (the kernel prints 'behavior undefined'): only the prefix form of the map theorem applies",
   ]
